@@ -31,7 +31,15 @@ type env struct {
 	caseID string
 	desc   map[string]any
 	failed bool
+	// the previous answers, as handed out (the slices themselves) and as they read then: an answer belongs to whoever asked
+	// for it (the server queues it for a peer) and must not change when the next question is answered
+	prevPtrs  []*wire.BlockHeader
+	prevFlat  []wire.BlockHeader
+	prevHash1 []refmodel.Hash
+	prevHash2 []refmodel.Hash
 }
+
+func hashOfWire(h *wire.BlockHeader) refmodel.Hash { return refmodel.Hash(h.BlockHash()) }
 
 func (e *env) violate(sig, what string, extra map[string]any) {
 	e.failed = true
@@ -316,6 +324,34 @@ func (e *env) getHeaders(q query) {
 	if !check("LocateHeaders", got2) {
 		return
 	}
+	checkPrev := func() bool {
+		// after this question has been answered, the previous answers still read as they did
+		for i, h := range e.prevPtrs {
+			if h == nil || hashOfWire(h) != e.prevHash1[i] {
+				e.violate("getheaders|earlier-answer-changed|LocateHeadersGetHeaders", fmt.Sprintf("header %d of the answer to the previous question changed when the next question was answered", i), extra)
+				return false
+			}
+		}
+		for i := range e.prevFlat {
+			if hashOfWire(&e.prevFlat[i]) != e.prevHash2[i] {
+				e.violate("getheaders|earlier-answer-changed|LocateHeaders", fmt.Sprintf("header %d of the answer to the previous question changed when the next question was answered", i), extra)
+				return false
+			}
+		}
+		return true
+	}
+	if !checkPrev() {
+		return
+	}
+	func(p1 []*wire.BlockHeader, p2 []wire.BlockHeader) {
+		e.prevPtrs, e.prevFlat, e.prevHash1, e.prevHash2 = p1, p2, nil, nil
+		for _, h := range p1 {
+			e.prevHash1 = append(e.prevHash1, hashOfWire(h))
+		}
+		for i := range p2 {
+			e.prevHash2 = append(e.prevHash2, hashOfWire(&p2[i]))
+		}
+	}(got1, got2)
 	if len(want) > 0 {
 		e.r.Count("getheaders_nonempty_answers", 1)
 	} else {
